@@ -19,6 +19,30 @@ CHECKS = {
  "C12": ("exploration", "5.C12", "seeded byte streams (frame grammar: every code, zero/one-byte frames, both add-hardware-certificate encodings, truncated and corrupted bodies, oversize prefixes, truncated key constraints) delivered through a scripted transport with 1-byte chunking, EOF / read error / write error at chosen offsets to the real yubiagent.ServeAgent serving a recording stub or the full server->shim->agent-model stack; replies attributed to request frames through transport positions",
          "expected replies of standard requests rely on the x/crypto wire codec; allocation oracle uses runtime.MemStats (8 MiB threshold); sampling",
          "deterministic simulation: stream faults on a scripted transport"),
+ "C06": ("exploration", "5.C06", "generated PKI (two pool roots, foreign CA, self-signed; device certificate valid / expired / not yet valid / lapsing at a planned instant) and slot certificates whose signature is EM^d mod N for a chosen encoded message (both DigestInfo encodings, 17 mutation classes, all pooled RSA sizes 1024..4096, non-RSA device key, every algorithm label class); Attest is called at planned instants of the simulated clock (before / after the lapse, decades later) and must accept exactly when the chain holds at that instant and the message is well-formed",
+         "only the clock dimension is simulation proper, the encoded-message space rides along as workload (stated in DESIGN.md); RSA-signature-under-ECDSA/DSA-label is treated as undecided; sampling",
+         "deterministic simulation: simulated clock positions over a generated PKI; reference predicate as oracle"),
+ "C07": ("exploration", "5.C07", "sequential histories (8..42 steps) on the real shim over the reference agent inside a bubble: add / add-hardware-certificate / remove / list / signers / sign, clock jumps (incl. one second before and after a planned expiry, decades), key removal and locking of the underlying agent behind the shim's back; after every step listing, sign outcome and the underlying agent (inspected directly) are compared with the tri-state model",
+         "model written from the property text; now == ValidBefore and 'only a certificate over the key is listed' are explicit undecided bands; sampling",
+         "deterministic simulation: simulated clock + reference model checked step by step"),
+ "C08": ("exploration", "5.C08", "histories dense in lock / unlock (right, wrong, empty passphrases) interleaved with every other operation, with the underlying agent refusing or dropping lock / unlock requests; while locked: List empty, every mutating or disclosing call fails, underlying identities unchanged; refused lock/unlock leave the shim's state unchanged; unlock restores the pre-lock view",
+         "as C07; after an injected upstream fault the comparison is relaxed narrowly (faulted call may fail, state resynchronised after checking that nothing unexplained changed)",
+         "deterministic simulation: upstream fault injection on lock/unlock + reference model"),
+ "C09": ("exploration", "5.C09", "every history is executed on two shims (no-upstream on and off) over identical agents in separate bubbles; listings must be equal minus the upstream certificates whose KeyID decodes (15 KeyID classes: every certificate type, near misses, free text), hidden certificates refuse to sign with a key-not-found error and stay removable, in-memory certificates are never hidden",
+         "'decodes as a YSSHCA KeyID' is delegated to keyid.Unmarshal (the codec itself is C05); sampling",
+         "deterministic simulation: two-mode differential over the same history"),
+ "C10": ("exploration", "5.C10", "histories over RSA/ECDSA/Ed25519 keys with add-hardware-certificate, raw forward and extension relays, under upstream faults at any request index (failure reply, empty / garbage / truncated / wrong-type / oversized reply, connection closed before / in / after a reply) and construction failures through the real shimagent.New on a unix socket; faulted call may fail but never panics, upstream damage must be explainable, still-valid in-memory certificates survive transient faults, relays are byte-exact, signatures verify under the certified key",
+         "the unix socket of the construction scenarios is a real kernel object (strict request/response, not scheduled); sampling",
+         "deterministic simulation: upstream fault injection + reference model"),
+ "C13": ("exploration", "5.C13", "operation sequences through the real yubiagent client over a chunked duplex transport (1-byte reads, split writes) to ServeAgent serving a recording stub with scripted results and failures; arguments recorded by the served agent and results seen by the caller must be byte-identical; slot operations run against the concrete server (hook) with a stub PIV tool whose output is generated (short / truncated 'Slot' lines, empty output, non-zero exit) and against a remote-mode server",
+         "error texts '' and 'SUCCESS' are excluded (protocol-inherent ambiguity); the PIV tool is a real child process; sampling",
+         "deterministic simulation: chunked transport + recording served agent"),
+ "C17": ("exploration", "5.C17", "the real crypki.Signer (gRPC, TLS, retry interceptor, back-off) against 0..4 simulated endpoints (real grpc.Server over in-memory listeners) inside a bubble: dial refused / stalled / slow / cut mid-RPC, scripted replies per attempt (any status code, stalled handler, unparsable or empty key material, 0..3 certificates and comment shapes); endpoints contacted in order, request unmodified, result = first successful reply, exhaustion and empty lists are errors, retry gaps within [0, 18 s] of simulated time; plus direct evaluation of the back-off for seeded configurations and attempt numbers up to 2^32-1 at several simulated instants",
+         "crypki.NewSigner is built outside the bubble (its certificate reloader never stops); which status codes are retried is not asserted (endpoints that succeed only on a retry are 'maybe'); sampling",
+         "deterministic simulation: simulated network with fault injection under a simulated clock"),
+ "C18": ("exploration", "5.C18", "as C17 with impostor endpoints in every position: certificates from a foreign CA, self-signed, expired / not yet valid in simulated time, valid for another name, servers offering only TLS <= 1.1, servers that require / request / ignore client certificates, CA bundles of 1..3 files; no CSR may ever reach an impostor's handler, the reply of an impostor is never returned, a later genuine endpoint is still used, genuine servers observe exactly the configured client certificate over TLS >= 1.2",
+         "real crypto/tls and crypto/x509 on both sides; sampling",
+         "deterministic simulation: impostor servers on a simulated network"),
 }
 NA = {
  "C05": "pure function of its input (KeyID Marshal/Unmarshal): no schedule, clock, transport, fault or history for a simulator to control; deciding it means generating inputs, which is another technique (DESIGN.md section 6)",
@@ -28,7 +52,7 @@ NA = {
  "C19": "pure total function of a KeyID and one option (certificate type/label/principal suffix) (DESIGN.md section 6)",
 }
 PENDING = {k: "check not built yet (in progress, see DESIGN.md section 5); not claimed until it runs" for k in
-           ["C06", "C07", "C08", "C09", "C10", "C11", "C13", "C17", "C18", "C20"]}
+           ["C11", "C20"]}
 
 def main():
     checks = []
